@@ -46,12 +46,14 @@ var validationProfiles = []string{"validation", "validation", "http-loc", "valid
 func checkC04() *rtCheck {
 	return &rtCheck{
 		Prop: "C04",
-		Rule: "specs from the validation profile; per method: boundary probes (below/on/above every min/max/exclusive bound, length n-1/n/n+1 in runes with multi-byte strings, enum member/non-member, pattern match/no-match, format well-formed/malformed, required attribute removed) applied to a valid payload at one site, sent through the generated client and hand-encoded; malformed wire encodings hand-encoded; results violating the result's constraints returned by the stub. The reference validator decides validity of the final tree. non-trivial = decided exchange; distinct = (feature signature, method, probe class, payload shape)",
+		Rule: "specs from the validation profile; per method: boundary probes (below/on/above every min/max/exclusive bound, length n-1/n/n+1 in runes with multi-byte strings, enum member/non-member, pattern match/no-match, format well-formed/malformed, required attribute removed) applied to a valid payload at one site, sent through the generated client and hand-encoded; malformed wire encodings hand-encoded; results violating the result's constraints returned by the stub; streamed messages of websocket endpoints (client and bidirectional streams): one message of a short stream carries a boundary probe, a violating message must not be returned by the service's Recv. The reference validator decides validity of the final tree. non-trivial = decided exchange; distinct = (feature signature, method, probe class, payload shape)",
 		Assume: []string{"formats are judged by construction class (valid/malformed pools); exactness of the format validators is C17's",
 			"no malformed host names are generated (hostname validator is a listed C17 finding)",
 			"alternative spellings of valid scalars in text locations are not generated"},
 		Profiles: validationProfiles, Specs: [2]int{32, 500}, PerMethod: [2]int{36, 160},
 		MkCases: cases.Validation, Judge: oracle.C04, Floor: [2]int{300, 8000}, Unions: true, Multipart: true,
+		// streamed messages of websocket endpoints: a dedicated batch of streaming designs, one probed message per stream
+		StreamSpecs: [2]int{20, 80}, StreamPerMethod: [2]int{10, 24}, StreamCases: cases.StreamInvalid,
 	}
 }
 
